@@ -27,10 +27,10 @@ Theorem C13_metric_is_hop_count : forall cf k ops n ns e,
 Proof. exact metric_is_hop_count. Qed.
 Print Assumptions C13_metric_is_hop_count.
 
-(** Every frame any agent ever sends makes its receiver record origin metric
+(** Every advertisement frame (not a withdrawal) any agent ever sends makes its receiver record origin metric
     + hops. *)
 Theorem C13_sent_metric : forall cf k ops o m r,
-  In m (snd (fst (step cf (run cf (init k) ops) o))) -> In r (a_routes (m_adv m)) ->
+  In m (snd (fst (step cf (run cf (init k) ops) o))) -> is_w (m_adv m) = false -> In r (a_routes (m_adv m)) ->
   inc16 (r_metric r) = (r_base r + lenN (a_path (m_adv m))) mod two16.
 Proof. exact sent_metric_is_base_plus_hops. Qed.
 Print Assumptions C13_sent_metric.
